@@ -25,8 +25,11 @@ Inductive sortobs := SortObs (pre : list (option N)) (post : list nat).
 Inductive case :=
 | CStruct (root : board) (nested : list board) (sorts : list sortobs)
           (replay : option (list op * (list obj * list nat * list edge)))
-    (* all boards of one compiled program; the sort oracle's observations; for programs of the core
-       fragment the operation list read off the IR and the board d2compiler built before sorting *)
+    (* all boards of one compiled program; the sort oracle's observations (permutation hypothesis); for
+       programs of the core fragment the operation list read off the IR and the board d2compiler built
+       before sorting *)
+| CRootOrder (root : board) (sorts : list sortobs)
+    (* order-of-first-appearance clause on the root board + the oracle's ordering hypothesis *)
 | COrder (nested : list board).
     (* order-of-first-appearance clause on the boards below the root *)
 
@@ -84,14 +87,14 @@ Definition check_case (c : case) : list N :=
   | CStruct root nested sorts replay =>
       flag (forallb aligned (root :: nested)) 1
       ++ flat_map (fun b => wf_codes (graph_of b)) (root :: nested)
-      ++ order_codes root 18 19
       ++ flag (forallb sort_perm_b sorts) 2
-      ++ flag (forallb sort_ordered_b sorts) 3
       ++ match replay with
          | None => []
          | Some (ops, (store, objs, edges)) =>
              flag (graph_eqb (run_ops fmtK lowerS ops) (snapshot store objs edges)) 1
          end
+  | CRootOrder root sorts =>
+      flag (aligned root) 1 ++ order_codes root 18 19 ++ flag (forallb sort_ordered_b sorts) 3
   | COrder nested =>
       flag (forallb aligned nested) 1 ++ flat_map (fun b => order_codes b 20 21) nested
   end.
